@@ -1,6 +1,404 @@
-//! Monitor for C25 (see /verif/DESIGN.md §5 C25).
-use vcommon::Args;
+//! C25 — a custom price feed never moves backwards in time or stores an invalid price.
+//!
+//! Two ways into the real `PriceFeed::update`:
+//!  * the real instructions `update_price_feed_with_chainlink` / `..._idempotent` with generated
+//!    data-streams V3 reports (mock verifier), arbitrary report timestamps / expiry / prices;
+//!  * a direct call of `PriceFeed::verif_update` (hook, `--cfg gmsol_verif`) on the same real feed
+//!    account from a tiny dispatcher registered under the store program id (needed because `update`
+//!    reads `Clock::get()`, which only exists inside a transaction). The direct path reaches price
+//!    triples the report conversion filters out (min > max, price outside [min, max]) and returns
+//!    `Ok` to the runtime even when `update` returned `Err`, so "a rejected update changes nothing" is
+//!    observed on the struct itself and not merely provided by transaction rollback.
+//!
+//! Oracle (relational, on the account bytes before / after every transaction): stored price timestamp
+//! never decreases; stored min ≤ price ≤ max; rejected ⇒ bytes identical; idempotent + older ⇒ `Ok`,
+//! `false`, bytes identical; strict + older is never stored (subsumed by monotonicity, counted).
+use crate::world::{exchange::load, World, STORE_PID};
+use anchor_lang::prelude::*;
+use anchor_lang::solana_program::{
+    entrypoint::ProgramResult,
+    instruction::{AccountMeta, Instruction},
+};
+use gmsol_store::states::{PriceFeed, PriceFeedPrice};
+use std::cell::RefCell;
+use vcommon::{json, monitor::run_shards, num_bigint::BigInt, Args, Monitor, Rng};
 
-pub fn run(_args: &Args) -> Option<i32> {
-    None
+const TAG: [u8; 8] = *b"\xffVRF-C25";
+const EXCESS_KEY: &str = "oracle_max_future_timestamp_excess";
+
+#[derive(Clone, Debug)]
+struct DirectCall {
+    decimals: u8,
+    ts: i64,
+    price: u128,
+    min: u128,
+    max: u128,
+    last_update_diff: u32,
+    max_future_excess: u64,
+    idempotent: bool,
+}
+
+thread_local! {
+    static CALL: RefCell<Option<DirectCall>> = const { RefCell::new(None) };
+    static RESULT: RefCell<Option<std::result::Result<bool, String>>> = const { RefCell::new(None) };
+}
+
+fn entry<'a>(program_id: &Pubkey, accounts: &'a [AccountInfo<'a>], data: &[u8]) -> ProgramResult {
+    if data.len() >= 8 && data[..8] == TAG {
+        let call = CALL.with(|c| c.borrow().clone()).ok_or(ProgramError::InvalidInstructionData)?;
+        let loader = AccountLoader::<PriceFeed>::try_from(&accounts[0])?;
+        let price = PriceFeedPrice::new(call.decimals, call.ts, call.price, call.min, call.max, call.last_update_diff);
+        let r = loader.load_mut()?.verif_update(&price, call.max_future_excess, call.idempotent);
+        RESULT.with(|x| *x.borrow_mut() = Some(r.map_err(|e| e.to_string())));
+        // Deliberately `Ok`: a rejected `update` must itself leave the account untouched.
+        Ok(())
+    } else {
+        gmsol_store::entry(program_id, accounts, data)
+    }
+}
+
+#[derive(Clone, Debug, PartialEq, Eq)]
+struct FeedState {
+    slot: u64,
+    published_at: i64,
+    ts: i64,
+    price: u128,
+    min: u128,
+    max: u128,
+}
+
+fn read_feed(w: &World, feed: &Pubkey) -> Option<(FeedState, Vec<u8>)> {
+    let f: PriceFeed = load(&w.svm, feed)?;
+    let bytes = w.svm.get(feed)?.data.clone();
+    let slot_at = u64::from_le_bytes(bytes[8 + 144..8 + 152].try_into().ok()?);
+    if slot_at != f.last_published_at_slot() {
+        return None;
+    }
+    let published_at = i64::from_le_bytes(bytes[8 + 152..8 + 160].try_into().ok()?);
+    let p = f.price();
+    Some((
+        FeedState { slot: f.last_published_at_slot(), published_at, ts: p.ts(), price: *p.price(), min: *p.min_price(), max: *p.max_price() },
+        bytes,
+    ))
+}
+
+fn order_class(min: &BigInt, price: &BigInt, max: &BigInt) -> &'static str {
+    let z = BigInt::from(0);
+    if *min < z || *price < z || *max < z {
+        "negative"
+    } else if min <= price && price <= max {
+        if min == max {
+            "valid_flat"
+        } else {
+            "valid"
+        }
+    } else if min > max {
+        "min_gt_max"
+    } else if price > max {
+        "price_gt_max"
+    } else {
+        "price_lt_min"
+    }
+}
+
+fn ts_class(ts: i64, stored: i64, now: i64, excess: u64) -> &'static str {
+    if ts < stored {
+        "older"
+    } else if ts == stored {
+        "same"
+    } else if ts as i128 > now as i128 + excess as i128 {
+        "future_excess"
+    } else if ts > now {
+        "future_within"
+    } else {
+        "newer"
+    }
+}
+
+fn gen_ts(rng: &mut Rng, stored: i64, now: i64, excess: u64) -> i64 {
+    // offsets are capped so that one far-future acceptance cannot freeze a feed for the whole history
+    let ex = excess.min(600) as i64;
+    match rng.below(16) {
+        0 => stored - 1,
+        1 => stored,
+        2 => stored + 1,
+        3 => stored - rng.range(1, 10_000) as i64,
+        4 => now,
+        5 => now + ex,
+        6 => now + ex + 1,
+        7 => now + rng.range(0, 2 * ex as u64 + 2) as i64,
+        8 => now - rng.range(0, 100) as i64,
+        9 | 10 | 11 => stored.max(now - 20) + rng.range(0, 20) as i64,
+        12 => rng.range_i64(stored, stored.max(now)),
+        _ => rng.range_i64(stored.min(now) - 50, stored.max(now) + 50),
+    }
+}
+
+pub fn run(args: &Args) -> Option<i32> {
+    let mut mon = Monitor::new(
+        args,
+        "random histories over three custom feeds of one store: (a) real update_price_feed_with_chainlink / _idempotent \
+         transactions with generated V3 reports (report ts older / equal / newer / future beyond the excess, expired, wrong \
+         feed id, bid/price/ask valid, mis-ordered, negative, zero, > u128), (b) direct PriceFeed::verif_update calls on \
+         the same accounts with arbitrary (min, price, max, ts), both strict and idempotent; clock warps forward, clock set \
+         back (timestamp and slot guards), max-future-excess config changes through insert_amount. After every transaction \
+         the feed account is re-read and compared with its bytes before. non-trivial = an update attempt against a feed \
+         that already stores a price; distinct = hash of (path, mode, outcome, timestamp class, price-order class, clock class)",
+    );
+    mon.assume("the clause `idempotent + older ⇒ Ok` is asserted only for otherwise well-formed reports and while the clock is not behind the feed's last publication (the quantifier speaks of clock *advances*); clock-set-back cases are checked for the universal clauses only");
+    mon.assume("chainlink reports are verified by the repository's mock verifier program");
+    let shards = args.scale(48, 384);
+    let steps = args.scale(4_000, 40_000);
+    let quiet = hostsvm::QuietStdout::new();
+    run_shards(&mut mon, args.threads, shards, |shard, m| {
+        let mut rng = Rng::derive(args.seed, shard, 25);
+        let mut w = World::bootstrap_store();
+        w.bootstrap_oracle();
+        let toks = [w.add_token("BTC", 8, 2, true), w.add_token("SOL", 9, 4, false), w.add_token("USDC", 6, 6, false)];
+        w.svm.add_program(STORE_PID, entry);
+        let keeper = w.keeper;
+        let mut excess: u64 = match load::<gmsol_store::states::Store>(&w.svm, &w.store)
+            .and_then(|s| s.get_amount(EXCESS_KEY).ok().copied())
+        {
+            Some(x) => x,
+            None => {
+                m.inconclusive("harness: cannot read the max-future-excess amount");
+                return;
+            }
+        };
+        for step in 0..steps {
+            match rng.below(48) {
+                0..=13 => {
+                    w.svm.warp(rng.range(0, 40) as i64);
+                    m.count("op_clock_forward");
+                }
+                14..=17 => {
+                    // far forward: also repairs a clock that was set back
+                    let (max_pub, max_slot) = toks.iter().filter_map(|t| read_feed(&w, &w.tokens[*t].feed)).fold((i64::MIN, 0u64), |a, (f, _)| (a.0.max(f.published_at), a.1.max(f.slot)));
+                    if w.svm.clock.slot < max_slot {
+                        w.svm.clock.slot = max_slot;
+                    }
+                    let t = w.svm.clock.unix_timestamp.max(max_pub) + rng.range(0, 1_000) as i64;
+                    w.svm.set_time(t);
+                    m.count("op_clock_repair_forward");
+                }
+                18 => {
+                    let back = rng.range(1, 2_000) as i64;
+                    let t = w.svm.clock.unix_timestamp - back;
+                    if rng.bool() {
+                        w.svm.clock.slot = w.svm.clock.slot.saturating_sub(rng.range(2, 500));
+                    }
+                    w.svm.set_time(t);
+                    m.count("op_clock_set_back");
+                }
+                19 | 20 => {
+                    let v = *rng.pick(&[0u64, 1, 5, 30, 3_600, u64::MAX, 1 << 40]);
+                    if w.insert_amount(EXCESS_KEY, v).is_ok() {
+                        excess = v;
+                        m.count("op_set_max_future_excess");
+                    }
+                }
+                _ => {}
+            }
+            let t = toks[rng.below(3) as usize];
+            let feed = w.tokens[t].feed;
+            let Some((pre, pre_bytes)) = read_feed(&w, &feed) else {
+                m.inconclusive("harness: feed account unreadable / layout self-check failed");
+                return;
+            };
+            let now = w.svm.clock.unix_timestamp;
+            let slot = w.svm.clock.slot;
+            let behind = slot < pre.slot || now < pre.published_at;
+            let idempotent = rng.bool();
+            let direct = rng.chance(2, 5);
+            let ts = gen_ts(&mut rng, pre.ts, now, excess);
+            // report timestamps are u32
+            let ts = if direct { ts } else { ts.clamp(0, u32::MAX as i64) };
+            // price triple
+            let base: u128 = match rng.below(6) {
+                0 => rng.log_u128(u128::MAX >> 2),
+                1 => 0,
+                _ => rng.range_u128(1, 100_000) * 10u128.pow(rng.range(10, 20) as u32),
+            };
+            let spread = rng.log_u128(base / 50 + 2);
+            let (mut min, mut price, mut max) = (base.saturating_sub(spread), base, base.saturating_add(spread));
+            match rng.below(12) {
+                0 => std::mem::swap(&mut min, &mut max),
+                1 => price = max.saturating_add(1 + rng.log_u128(1_000)),
+                2 => price = min.saturating_sub(1 + rng.log_u128(1_000)),
+                3 => {
+                    min = price;
+                    max = price;
+                }
+                4 => std::mem::swap(&mut min, &mut price),
+                _ => {}
+            }
+            let (outcome, well_formed, path): (std::result::Result<Option<bool>, String>, bool, &str);
+            let mut negative = false;
+            if direct {
+                let call = DirectCall {
+                    decimals: rng.range(0, 20) as u8,
+                    ts,
+                    price,
+                    min,
+                    max,
+                    last_update_diff: rng.next_u64() as u32,
+                    max_future_excess: if rng.chance(1, 4) { *rng.pick(&[0u64, 1, 60, u64::MAX]) } else { excess },
+                    idempotent,
+                };
+                CALL.with(|c| *c.borrow_mut() = Some(call.clone()));
+                RESULT.with(|r| *r.borrow_mut() = None);
+                let ix = Instruction { program_id: STORE_PID, accounts: vec![AccountMeta::new(feed, false)], data: TAG.to_vec() };
+                let res = w.send(&[ix], &[keeper]);
+                let r = RESULT.with(|r| r.borrow_mut().take());
+                match (res, r) {
+                    (Ok(_), Some(r)) => outcome = r.map(Some),
+                    (res, _) => {
+                        m.inconclusive(&format!("harness: direct update transaction failed: {:?}", res.err().map(|e| e.0)));
+                        return;
+                    }
+                }
+                // For the direct path "well formed" is irrelevant to the skip clause: `update` skips an
+                // older price in idempotent mode before looking at the prices.
+                well_formed = true;
+                path = "direct";
+                m.count("op_direct_update");
+            } else {
+                // Chainlink report; prices are signed 192-bit, 18 decimals.
+                let (mut b, mut p, mut a) = (BigInt::from(min), BigInt::from(price), BigInt::from(max));
+                match rng.below(16) {
+                    0 => {
+                        b = -b - 1;
+                        negative = true;
+                    }
+                    1 => {
+                        p = -p - 1;
+                        negative = true;
+                    }
+                    2 => {
+                        a = a * BigInt::from(u64::MAX) * BigInt::from(u64::MAX);
+                    }
+                    _ => {}
+                }
+                let mut r = w.report_for(t, b.clone(), p.clone(), a.clone(), ts);
+                let mut ok_shape = true;
+                let expiry_class = rng.below(10);
+                let exp: i64 = match expiry_class {
+                    0 => now - 1 - rng.range(0, 100) as i64,
+                    1 => now,
+                    _ => now.max(ts) + rng.range(0, 3_600) as i64,
+                };
+                r.expires_at = exp.clamp(0, u32::MAX as i64) as u32;
+                if exp < now {
+                    ok_shape = false;
+                }
+                r.valid_from = ts.clamp(0, u32::MAX as i64) as u32;
+                r.observations_ts = ts.clamp(0, u32::MAX as i64) as u32;
+                if rng.chance(1, 25) {
+                    r.feed_id = w.tokens[toks[(rng.below(2) as usize + 1 + toks.iter().position(|x| *x == t).unwrap()) % 3]].feed_id.to_bytes();
+                    ok_shape = false;
+                }
+                let limit = BigInt::from(1u8) << 120;
+                well_formed = ok_shape && !negative && b <= p && p <= a && a < limit;
+                let ix = w.update_feed_ix(t, r.compressed_full_report(), idempotent, keeper);
+                let res = w.send(&[ix], &[keeper]);
+                outcome = match res {
+                    Ok(meta) => Ok(if idempotent { meta.return_data.as_ref().and_then(|(_, d)| d.first().map(|x| *x != 0)) } else { None }),
+                    Err((e, _)) => Err(format!("{e:?}")),
+                };
+                path = "chainlink";
+                m.count("op_chainlink_update");
+                let _ = (&b, &p, &a);
+            }
+            let Some((post, post_bytes)) = read_feed(&w, &feed) else {
+                m.inconclusive("harness: feed account unreadable after update");
+                return;
+            };
+            m.eval();
+            let changed = post_bytes != pre_bytes;
+            let tsc = ts_class(ts, pre.ts, now, excess);
+            let oc = order_class(&BigInt::from(min), &BigInt::from(price), &BigInt::from(max));
+            let out_class = match &outcome {
+                Ok(Some(true)) => "ok_updated",
+                Ok(Some(false)) => "ok_skipped",
+                Ok(None) => "ok",
+                Err(_) => "rejected",
+            };
+            m.count(&format!("{path}_{}_{out_class}", if idempotent { "idempotent" } else { "strict" }));
+            m.count(&format!("ts_{tsc}_{out_class}"));
+            m.count(&format!("price_{oc}{}_{out_class}", if negative { "_neg" } else { "" }));
+            if behind {
+                m.count(&format!("clock_behind_{out_class}"));
+            }
+            let wit = || {
+                json!({
+                    "shard": shard, "step": step, "path": path, "idempotent": idempotent,
+                    "clock": {"unix_timestamp": now, "slot": slot}, "max_future_excess_config": excess,
+                    "submitted": {"ts": ts, "min_or_bid": min.to_string(), "price": price.to_string(), "max_or_ask": max.to_string(), "negated_field": negative},
+                    "before": format!("{pre:?}"), "after": format!("{post:?}"), "outcome": format!("{outcome:?}"),
+                })
+            };
+            if post.ts < pre.ts {
+                m.violation(&format!("C25:{path}:price_timestamp_decreased"), wit());
+            }
+            if !(post.min <= post.price && post.price <= post.max) {
+                m.violation(&format!("C25:{path}:invalid_price_stored"), wit());
+            }
+            if outcome.is_err() && changed {
+                m.violation(&format!("C25:{path}:rejected_update_changed_account"), wit());
+            }
+            if matches!(outcome, Ok(Some(false))) && changed {
+                m.violation(&format!("C25:{path}:skipped_update_changed_account"), wit());
+            }
+            let older = ts < pre.ts;
+            if idempotent && older && well_formed && !behind {
+                m.count("idempotent_older_checked");
+                match &outcome {
+                    Ok(flag) => {
+                        if changed {
+                            m.violation(&format!("C25:{path}:idempotent_older_update_changed_account"), wit());
+                        }
+                        if *flag == Some(true) {
+                            m.violation(&format!("C25:{path}:idempotent_older_update_reported_updated"), wit());
+                        }
+                    }
+                    Err(_) => m.violation(&format!("C25:{path}:idempotent_older_update_errored"), wit()),
+                }
+            }
+            if !idempotent && older {
+                if outcome.is_err() {
+                    m.count("strict_older_rejected");
+                } else {
+                    m.count("strict_older_not_rejected");
+                }
+            }
+            if pre.ts != 0 || pre.max != 0 {
+                let sig = format!("{path}|{idempotent}|{out_class}|{tsc}|{oc}|{negative}|{behind}");
+                m.nontrivial(sig.as_bytes());
+                m.count("attempt_on_populated_feed");
+            }
+            if changed {
+                m.count("feed_changed");
+            }
+            if m.wants_sample() && step % 173 == 11 {
+                m.sample(wit());
+            }
+        }
+    });
+    drop(quiet);
+    mon.require("attempt_on_populated_feed", 5_000);
+    mon.require("feed_changed", 1_000);
+    mon.require("idempotent_older_checked", 300);
+    mon.require("strict_older_rejected", 300);
+    mon.require("chainlink_strict_ok", 200);
+    mon.require("chainlink_idempotent_ok_updated", 200);
+    mon.require("chainlink_idempotent_ok_skipped", 100);
+    mon.require("direct_strict_ok_updated", 200);
+    mon.require("direct_idempotent_ok_skipped", 100);
+    mon.require("price_min_gt_max_rejected", 100);
+    mon.require("price_price_gt_max_rejected", 100);
+    mon.require("price_price_lt_min_rejected", 100);
+    mon.require("ts_future_excess_rejected", 100);
+    mon.require("clock_behind_rejected", 50);
+    Some(mon.finish())
 }
